@@ -90,7 +90,7 @@ func main() {
 		seed, _ = strconv.Atoi(s)
 	}
 	f, ok := registry[id]
-	if !ok {
+	if !ok && id != "ALL" {
 		fmt.Printf("CHECK-BROKEN unknown property %s\n", id)
 		os.Exit(2)
 	}
@@ -120,6 +120,34 @@ func main() {
 		}
 		fmt.Printf("CHECK-BROKEN property=%s load failed: %v\n", id, err)
 		os.Exit(2)
+	}
+	if id == "ALL" {
+		// documentation aid (tools/seed_matrix.py): every check on one loaded program, one summary line per check;
+		// no registered command uses it
+		var ids []string
+		for k := range registry {
+			if strings.HasPrefix(k, "C") {
+				ids = append(ids, k)
+			}
+		}
+		sort.Strings(ids)
+		for _, k := range ids {
+			rk := NewResult(k, P)
+			func() {
+				defer func() {
+					if e := recover(); e != nil {
+						rk.broken("engine panic: %v\n%s", e, debug.Stack())
+					}
+				}()
+				registry[k](rk)
+			}()
+			if overlayFile == "" {
+				checkReviewedCounts(rk, k)
+			}
+			code := rk.Finish(verif, tier, seed, time.Now(), map[string]any{"load_s": 0.0})
+			fmt.Printf("ALL-RESULT %s exit=%d\n", k, code)
+		}
+		os.Exit(0)
 	}
 	r := NewResult(id, P)
 	func() {
@@ -174,27 +202,8 @@ func main() {
 		fmt.Printf("MUTANT-MISSED %s expect=%q fired=%v broken=%v\n", spec.Name, spec.Expect, fired, r.Broken)
 		os.Exit(5)
 	}
-	// an obligation that disappears together with the construct it was attached to must not pass silently
 	if overlayFile == "" {
-		got := map[string]int{}
-		for _, o := range r.Obs {
-			got[o.Rule]++
-		}
-		var rules []string
-		for rule := range reviewedCounts[id] {
-			rules = append(rules, rule)
-		}
-		sort.Strings(rules)
-		// census rules enumerate hazards (failure origins, map ranges, debit sinks): fewer of them is not a loss
-		census := map[string]bool{"FAIL-DIV": true, "FAIL-ERR": true, "FAIL-INDEX": true, "FAIL-PANIC": true, "DET-API": true, "DET-MAPRANGE": true, "DET-SORT": true, "VOTEEXT-FAIL": true, "SIGNER-FRAME": true}
-		for _, rule := range rules {
-			if census[rule] {
-				continue
-			}
-			if got[rule] < reviewedCounts[id][rule] {
-				r.broken("rule %s produced %d obligations, %d were reviewed on the last reviewed tree: a construct an obligation was attached to is gone or moved; re-review it and refresh tools/gen_counts.py", rule, got[rule], reviewedCounts[id][rule])
-			}
-		}
+		checkReviewedCounts(r, id)
 	}
 	if replay != "" {
 		b, err := os.ReadFile(replay)
@@ -215,4 +224,27 @@ func main() {
 		extra = runThorough(r, id, repo, verif)
 	}
 	os.Exit(r.Finish(verif, tier, seed, t0, extra))
+}
+
+// checkReviewedCounts: an obligation that disappears together with the construct it was attached to must not pass silently.
+func checkReviewedCounts(r *Result, id string) {
+	got := map[string]int{}
+	for _, o := range r.Obs {
+		got[o.Rule]++
+	}
+	var rules []string
+	for rule := range reviewedCounts[id] {
+		rules = append(rules, rule)
+	}
+	sort.Strings(rules)
+	// census rules enumerate hazards (failure origins, map ranges, debit sinks): fewer of them is not a loss
+	census := map[string]bool{"FAIL-DIV": true, "FAIL-ERR": true, "FAIL-INDEX": true, "FAIL-PANIC": true, "DET-API": true, "DET-MAPRANGE": true, "DET-SORT": true, "VOTEEXT-FAIL": true, "SIGNER-FRAME": true}
+	for _, rule := range rules {
+		if census[rule] {
+			continue
+		}
+		if got[rule] < reviewedCounts[id][rule] {
+			r.broken("rule %s produced %d obligations, %d were reviewed on the last reviewed tree: a construct an obligation was attached to is gone or moved; re-review it and refresh tools/gen_counts.py", rule, got[rule], reviewedCounts[id][rule])
+		}
+	}
 }
